@@ -30,6 +30,14 @@ open NsyncVerif.MuC
 #print axioms quiescent_not_resp
 #print axioms C06_no_missed_cond
 #print axioms C06_no_stuck_state_partial
+#print axioms C06_writer_waiting_justified
+#print axioms C06_timeout_store_clean
+#print axioms C06_long_wait_justified
+#print axioms C06_responsible
+#print axioms C06_responsible_pending
+#print axioms C06_lock_slow_record
+#print axioms C06_no_stuck_state
+#print axioms C06_quiescent_no_plain_waiter
 #print axioms C06_quiescent_witness
 #print axioms C06_no_stuck_state_old_code_witness
 #print axioms C06_no_missed_cond_old_code_witness
@@ -42,3 +50,6 @@ open NsyncVerif.MuC
 #print axioms reachable_inv9
 #print axioms reachable_inv10
 #print axioms reachable_inv11
+#print axioms step_tl
+#print axioms inv12_of_tl
+#print axioms reachable_Inv12
